@@ -13,8 +13,7 @@ static volatile long g_assertHits = 0;
 static vh::Log* g_log = nullptr;
 extern "C" void hfsm2_verif_break(const char* file, int line) {
 	++g_assertHits;
-	if (g_log) { const char* b = strrchr(file, '/'); g_log->tag('B'); g_log->s(b ? b + 1 : file); g_log->i(line); g_log->nl(); }
-	if (g_assertHits > 200) { if (g_log) g_log->flush(); fprintf(stderr, "VH: too many assertion hits\n"); _exit(3); }
+	if (g_log && g_assertHits <= 3000) { const char* b = strrchr(file, '/'); g_log->tag('B'); g_log->s(b ? b + 1 : file); g_log->i(line); g_log->nl(); }
 }
 #endif
 
